@@ -38,8 +38,15 @@ def get_stack(chk, flags, enc):
         f = [c == "1" for c in flags]
         prot = YowStackBuilder.getProtocolLayers(groups=f[0], media=f[1], privacy=f[2], profiles=f[3])
         bottom, top = Probe("bottom"), Probe("top")
-        layers = (bottom,) + ((AxolotlControlLayer,) if enc else ()) + (YowParallelLayer(prot), top)
+        # with encryption: the three encryption layers of the default stack (control, send | receive) between the probe and the protocol group
+        from yowsup.layers.axolotl import AxolotlSendLayer, AxolotlReceivelayer
+        layers = (bottom,) + ((AxolotlControlLayer, YowParallelLayer((AxolotlSendLayer, AxolotlReceivelayer))) if enc else ()) + (YowParallelLayer(prot), top)
         stack = YowStack(layers, reversed=False)
+        if enc:
+            for sub in stack.getLayer(2).sublayers:
+                # outgoing test messages leave unencrypted (what happens to messages inside the encryption layers is C03's subject)
+                if hasattr(sub, "skipEncJids"):
+                    sub.skipEncJids.extend([stanzas.JID, stanzas.GJID])
         if enc:
             # the control layer needs the account's key store: a scratch profile, small prekey batches
             from yowsup.axolotl.manager import AxolotlManager
@@ -62,6 +69,7 @@ def get_stack(chk, flags, enc):
 
 SUPPORTED = (
     [{"tag": t} for t in ("receipt", "ack", "presence", "chatstate", "success", "failure", "streamFeatures", "other")]
+    + [{"tag": "receipt", "rtype": t, "participant": p_} for t in ("read", "retry") for p_ in (0, 1)] + [{"tag": "receipt", "rtype": "read", "rlist": 1}]
     + [{"tag": "streamError", "errKnown": 1}, {"tag": "streamError", "errKnown": 0}]
     + [{"tag": "call", "callOffer": 1}, {"tag": "call", "callOffer": 0}]
     + [{"tag": "ib", "cDirty": 1}, {"tag": "ib", "cOffline": 1}, {"tag": "ib", "cAccount": 1}, {"tag": "ib"}]
@@ -108,6 +116,10 @@ def rand_desc(r):
     elif tag == "ib":
         for c in r.sample(["cDirty", "cOffline", "cAccount"], r.choice([0, 1, 2])):
             d[c] = 1
+    elif tag == "receipt":
+        d["rtype"] = r.choice(["delivery", "read", "played", "retry", "retry", "server-error"])
+        d["participant"] = r.choice([0, 0, 1])
+        d["rlist"] = r.choice([0, 0, 1])
     elif tag == "call":
         d["callOffer"] = r.choice([0, 1])
     elif tag == "streamError":
@@ -268,6 +280,18 @@ def run_case(chk, stream, case):
     # ---- oracle (C06): never more than one entity
     if len(ups) > 1:
         fails.append(oracle("C06:incoming-duplicated", "stanza %s (modules %s) produced %d entities: %s" % (desc_line(d), case["flags"], len(ups), ups)))
+    # ---- oracle (C06): a stanza of a kind that is supported in every module selection produces exactly one entity
+    must = None
+    if d["tag"] in ("receipt", "ack", "presence", "chatstate"):
+        must = d["tag"]
+    elif d["tag"] == "message" and d.get("hasProto") and d.get("mtype") == "text" and d.get("media", "absent") == "absent" and d.get("payload") in ("conversation", "extendedText"):
+        must = "text message"
+    elif (d["tag"] == "message" and d.get("hasProto") and d.get("mtype") == "media" and case["flags"][1] == "1"
+          and d.get("media") not in (None, "absent", "other") and d.get("payload") != "keyDistributionOnly"):
+        must = "media message"
+    if must and raised is None and len(ups) != 1:
+        fails.append(oracle("C06:incoming-lost:%s" % must.replace(" ", "-"), "stanza %s (modules %s, encryption layers %s): %d entities reached the application, expected exactly one"
+                            % (desc_line(d), case["flags"], bool(case["enc"]), len(ups))))
     # ---- oracle (C07): acknowledgements
     if d["tag"] == "notification" and not (d.get("ntype") == "picture" and not d.get("cSet") and not d.get("cDelete")):
         acks = [n for n in sent if n.tag == "ack"]
